@@ -349,9 +349,46 @@ func runEngineHistory(c *hx.Ctx, r *hx.Rng, idx int) error {
 	h.observe("start")
 	dropped := false
 	nOps := 10 + r.Intn(18)
-	for i := 0; i < nOps; i++ {
+	// a forced continuation: (op selector, shard to use) pairs that the next steps take instead of random draws
+	type forcedOp struct {
+		p     int
+		shard *engine.VerifEngineShard
+	}
+	var forced []forcedOp
+	for i := 0; i < nOps || len(forced) > 0; i++ {
 		tag := ""
-		switch p := r.Intn(100); {
+		p := r.Intn(100)
+		var pick *engine.VerifEngineShard
+		if len(forced) > 0 {
+			p, pick = forced[0].p, forced[0].shard
+			forced = forced[1:]
+		} else if p >= 70 && p < 94 && len(h.fin) == 0 && r.Chance(60) {
+			// the purge meets a merge: in a policy whose deleted set is not empty (preferably one with
+			// several indexes) a merger takes the parts of one index, the drop-series task runs, the
+			// merge ends, the task runs again, the store restarts
+			var cands, multi []engine.VerifEngineShard
+			for _, s := range h.live {
+				if h.memDel[s.DB+"/"+s.RP] {
+					cands = append(cands, s)
+					if len(h.liveOf(s.DB, s.RP)) > 1 {
+						multi = append(multi, s)
+					}
+				}
+			}
+			if len(multi) > 0 {
+				cands = multi
+			}
+			if len(cands) > 0 {
+				s := cands[r.Intn(len(cands))]
+				forced = []forcedOp{{80, &s}, {90, nil}, {85, nil}, {90, nil}, {99, nil}}
+				c.Count("engine-history:purge-meets-merge")
+				if len(multi) > 0 {
+					c.Count("engine-history:purge-meets-merge-in-a-policy-with-several-indexes")
+				}
+				continue
+			}
+		}
+		switch {
 		case p < 30 && len(h.live) > 0:
 			s := h.live[r.Intn(len(h.live))]
 			mst := []string{"m", "n"}[r.Intn(2)]
@@ -491,6 +528,9 @@ func runEngineHistory(c *hx.Ctx, r *hx.Rng, idx int) error {
 		case p < 83 && len(h.live) > 0:
 			// a merger takes parts of one shard's index; the merge ends at a later step
 			s := h.live[r.Intn(len(h.live))]
+			if pick != nil && h.isLive(pick.ShardID) {
+				s = *pick
+			}
 			if h.fin[s.ShardID] != nil {
 				continue
 			}
